@@ -5,3 +5,8 @@ open Amoco.Dis.Props05
 #print axioms index_adds_no_tail_dependence
 #print axioms fixed_spec_ignores_tail
 #print axioms no_prefix_isa_determined
+open Amoco.Leb128.Props05
+#print axioms leb_operand_bounds
+#print axioms leb_operand_ignores_tail
+#print axioms leb_operand_truncation_rejected
+#print axioms leb_operand_depends_on_consumed
